@@ -1074,6 +1074,55 @@ func secProcessor(h *hctx, r *lib.RNG) {
 			}
 		}
 	}
+	// LIVENESS (theorem processor_builds_from_k_honest_units): exactly k distinct honest units, any
+	// k of them in any order, nothing else — the local unit must be broadcast
+	lns := []int{3, 4, 5, 7, 8}
+	if h.f.Thorough() {
+		lns = append(lns, 10, 13, 16)
+	}
+	for _, n := range lns {
+		total := n - 1
+		for _, lp := range [][2]int{{0, 1}, {n - 1, 0}, {1, n - 1}} {
+			w0, err := newProcWorld(mk(n, lp[0], lp[1], 8, nil))
+			if err != nil {
+				continue
+			}
+			for t := 0; t < h.f.Scale(3, 8); t++ {
+				all := make([]int, total)
+				for i := range all {
+					all[i] = i
+				}
+				lib.Shuffle(r, all)
+				add(mk(n, lp[0], lp[1], 1+r.Intn(70), honestSteps(all[:w0.k])))
+			}
+		}
+	}
+	// units of ANOTHER message key (same publisher, root and signature; other nonce / committee id)
+	// after an honest unit: the validator's cached-signature shortcut makes them acceptable to the
+	// honest message's validator, so it is only the routing by message key (extractKey) that keeps
+	// them out. k = 2 (committees of 7 and more): (A) honest a, forged b — nothing may be built;
+	// (B) honest a, forged LOCAL index, honest … — the unit broadcast must be the publisher's.
+	for _, n := range []int{7, 8} {
+		total := n - 1
+		for _, lp := range [][2]int{{0, 1}, {n - 1, 2}} {
+			w0, err := newProcWorld(mk(n, lp[0], lp[1], 8, nil))
+			if err != nil || w0.localIdx < 0 || w0.localIdx >= total {
+				continue
+			}
+			li := w0.localIdx
+			var others []int
+			for i := 0; i < total; i++ {
+				if i != li {
+					others = append(others, i)
+				}
+			}
+			lib.Shuffle(r, others)
+			for _, b := range []string{"nonce-plus1", "committee-flip"} {
+				add(mk(n, lp[0], lp[1], 23, []procStepT{{Unit: others[0], Sender: "legit"}, {Unit: others[1], Corrupt: b, Sender: "legit"}}))
+				add(mk(n, lp[0], lp[1], 23, append([]procStepT{{Unit: others[0], Sender: "legit"}, {Unit: li, Corrupt: b, Sender: "legit"}}, honestSteps(others[1:])...)))
+			}
+		}
+	}
 	// a committee with a member whose peer id embeds no public key: a unit that NAMES it as
 	// publisher (nothing else about the unit matters) at various positions
 	for _, n := range []int{4, 5, 8} {
@@ -1200,8 +1249,20 @@ func probeProcessor(h *hctx) {
 		// the local shard first makes the subprocessor broadcast; an invalid unit makes Run log
 		sc := mk(4, 0, 1, []procStepT{{Unit: 0, Sender: "legit"}, {Unit: 1, Corrupt: "shard-flip", Sender: "legit"}, {Unit: 1, Sender: "legit"}})
 		pr := runProcChild(sc)
-		_, final, notes := collect(pr, len(sc.Steps))
-		return !pr.crashed && final != "stuck" && final != "" && len(notes) == 0
+		_, final, notes, ev := collectEv(pr, len(sc.Steps))
+		// a scenario without steps only constructs the Processor and reports its fields
+		pr0 := runProcChild(mk(4, 0, 1, nil))
+		_, _, _, ev0 := collectEv(pr0, 0)
+		if ev0.LoggerNil || ev.LoggerNil || ev.NilChanSendBroadcast {
+			// EVIDENCE of the two unset fields (read from the struct / the goroutine dump)
+			return false
+		}
+		if pr.crashed || final == "stuck" || final == "" || len(notes) > 0 {
+			// the fields are set, something else is wrong with this tree's Processor: the scenarios
+			// below run and say what
+			h.res.Hit("proc:probe-scenario-failed-on-a-wired-processor")
+		}
+		return true
 	}
 	h.pcfg.ProcWired = wiredProbe()
 	if !h.pcfg.ProcWired {
